@@ -158,7 +158,7 @@ class RepetitionExperimentKernel(IStabilizerIndexingKernel):
     def indexing_kernels(self) -> List[IIndexingKernel]:
         """:return: Array-like of ordered indexing kernels that describe self."""
         repetition_kernels: List[IIndexingKernel] = self._repetition_kernels
-        calibration_kernel: List[IIndexingKernel] = [self._calibration_kernel]
+        calibration_kernel: List[IIndexingKernel] = [self._calibration_kernel] if self._qutrit_calibration_points else []
         result: List[IIndexingKernel] = repetition_kernels + calibration_kernel
         return result
     # endregion
@@ -194,7 +194,7 @@ class RepetitionExperimentKernel(IStabilizerIndexingKernel):
         self._calibration_kernel: QutritCalibrationIndexKernel = QutritCalibrationIndexKernel(
             heralded_initialization=self._heralded_initialization,
             index_offset_strategy=RelativeIndexStrategy(reference_index_kernel=self._repetition_kernels[-1]),
-            involved_qubit_ids=self._involved_data_ids + self._involved_ancilla_ids,
+            involved_qubit_ids=self._involved_data_ids + self._involved_ancilla_ids if self._qutrit_calibration_points else [],
         )
     # endregion
 
